@@ -18,6 +18,7 @@ from fractions import Fraction
 from ..absint import Interp, Explorer, AbsRaise, Unsupported, AObj
 from ..common import parallel_map
 from ..world import RealMgrWorld
+from ..absint import ClassRef
 from .. import refsem
 
 BOOL, INT, REAL, STRING = refsem.BOOL, refsem.INT, refsem.REAL, refsem.STRING
@@ -629,5 +630,116 @@ def alias_results():
     out = []
     jobs = [(c, i) for c in sorted(ORACLES) for i in (0, 1, 4, 7, 8)]
     for r in parallel_map(_alias_job, jobs):
+        out.extend(r)
+    return out
+
+
+# ------------------------------------------------------------------------------------------------ M8
+B8_, B32_, B4_ = ("BV", 8), ("BV", 32), ("BV", 4)
+
+
+def xenv_cases():
+    """(symbols of A, term of A, symbols of B, term of B, substitution map for B): the two environments make the same
+    constructions in the same order, so corresponding nodes carry the same ids although they differ."""
+    P = lambda v: ("py", v)
+    sy = dict(a=BOOL, b=BOOL, c=BOOL, x=INT, y=INT, z=INT)
+    q1 = ("And", "a", ("ForAll", ("list", "a"), ("Or", "a", "b")))
+    q2 = ("Or", ("Exists", ("list", "x"), ("LT", "x", "y")), ("LT", "x", "z"))
+    sa_ = dict(ar=("ARRAY", B4_, B32_), i=B4_, k=B4_)
+    sb_ = dict(ar=("ARRAY", B4_, B8_), i=B4_, k=B4_)
+    ext = ("BVZExt", ("Select", "ar", "i"), P(4))
+    sext = ("BVSExt", ("Select", ("Store", "ar", "k", ("Select", "ar", "i")), "i"), P(2))
+    return [
+        (sy, q1, sy, q1, (("a", ("Not", "b")),)),
+        (sy, ("And", "b", ("ForAll", ("list", "c"), ("Or", "a", "c"))), sy, ("And", "a", ("ForAll", ("list", "a"), ("Or", "b", "a"))), (("a", "c"), ("b", ("Not", "a")))),
+        (sy, q2, sy, q2, (("x", ("Plus", "y", ("Int", P(1)))),)),
+        (sy, ("Or", ("Exists", ("list", "y"), ("LT", "x", "y")), ("LT", "y", "z")), sy, q2, (("x", "z"), ("y", "x"))),
+        (sa_, ext, sb_, ext, ()),
+        (sa_, sext, sb_, sext, ()),
+        (dict(u=B32_, v=B32_), ("BVConcat", ("BVAdd", "u", "v"), "u"), dict(u=B8_, v=B8_), ("BVConcat", ("BVAdd", "u", "v"), "u"), (("u", "v"),)),
+    ]
+
+
+def _xenv_job(idx):
+    """Environment B (created next to the default environment A, never pushed on the stack) after ordinary work in A on
+    nodes with the same ids: types, widths, free variables, sizes and substitutions in B are those obtained when A
+    did nothing."""
+    sy1, t1, sy2, t2, mp = xenv_cases()[idx]
+    tag = "%s in a second environment after %s in the first" % (_show(t2), _show(t1))
+
+    def one(ex):
+        from .c14_deep import ac_sig
+        res = {}
+        for mode in ("alone", "after"):
+            it = Interp(ex, max_steps=6000000)
+            w = RealMgrWorld().attach(it)
+            A = (w.env, w.mgr)
+            B = w.new_environment()
+
+            def battery(n, env):
+                out = []
+                for acc in ("get_type", "get_free_variables", "size", "bv_width", "is_constant"):
+                    try:
+                        out.append((acc, ac_sig(w, it.call(it.getattr(n, acc), []))))
+                    except AbsRaise as ex_:
+                        out.append((acc, "raises " + ex_.cls_name))
+                for svc, meth in (("stc", "get_type"), ("fvo", "get_free_variables"), ("sizeo", "get_size"), ("qfo", "is_qf")):
+                    try:
+                        out.append((svc, ac_sig(w, it.call(it.getattr(it.getattr(env, svc), meth), [n]))))
+                    except AbsRaise as ex_:
+                        out.append((svc, "raises " + ex_.cls_name))
+                return out
+
+            def nodes_of(n):
+                return list(_nodes(w, n).values())
+            if mode == "after":
+                with w.using(*A):
+                    s1 = dict((k, w.symbol(k, v)) for k, v in sorted(sy1.items()))
+                    f1 = _build(w, s1, t1)
+                    for n in nodes_of(f1):
+                        battery(n, A[0])
+                    try:
+                        it.call(it.getattr(f1, "substitute"), [dict((s1[k], _build(w, s1, v)) for k, v in mp)])
+                    except AbsRaise:
+                        pass
+            with w.using(*B):
+                s2 = dict((k, w.symbol(k, v)) for k, v in sorted(sy2.items()))
+                f2 = _build(w, s2, t2)
+                m2 = dict((s2[k], _build(w, s2, v)) for k, v in mp)
+            # A is the top of the environment stack; B's formulas are handled through B's own services
+            sig = []
+            for n in nodes_of(f2):
+                sig.append((sc_str(w, n), battery(n, B[0])))
+            sub = it.instantiate(ClassRef("pysmt.substituter.MGSubstituter"), [B[0]], {})
+            try:
+                r = it.call(it.getattr(sub, "substitute"), [f2, m2])
+                sig.append(("substitute", ac_sig(w, r), sorted(set(id(x) in set(id(v) for v in A[1].attrs["formulae"].values()) for x in nodes_of(r)))))
+            except AbsRaise as ex_:
+                sig.append(("substitute", "raises " + ex_.cls_name))
+            res[mode] = sorted(sig, key=repr)
+        return res
+    try:
+        paths = Explorer(max_paths=4).run(one)
+    except Unsupported as e:
+        return [("unsupported", tag, str(e))]
+    out = []
+    for p in paths:
+        if p.kind != "return":
+            out.append(("unsupported", tag, "%s %s" % (p.kind, str(p.value)[:200])))
+            continue
+        al, af = p.value["alone"], p.value["after"]
+        if al != af:
+            diff = [(x, y) for x, y in zip(al, af) if x != y]
+            x, y = diff[0] if diff else (al[-1], af[-1])
+            out.append(("bad", "xenv|%s" % tag, "%s: after the work in the first environment %s; when the first environment did nothing %s"
+                        % (tag, str(y)[:260], str(x)[:260])))
+        else:
+            out.append(("ok", tag, "as when the first environment did nothing"))
+    return out
+
+
+def xenv_results():
+    out = []
+    for r in parallel_map(_xenv_job, list(range(len(xenv_cases())))):
         out.extend(r)
     return out
